@@ -4,8 +4,11 @@ package mimetype
 
 import (
 	vbytes "bytes"
+	vio2 "io"
 	vsync "sync"
 )
+
+func vioEOF() error { return vio2.EOF }
 
 func c06Reject([]byte, uint32) bool { return false }
 
@@ -37,6 +40,14 @@ func HC06Pairs() {
 		func() { Extend(c06Reject, "application/x-verif-c06b", ".b") },
 		func() { text.Extend(c06Reject, "text/x-verif-c06c", ".c", "text/x-verif-c06d") },
 		func() { _ = res.String(); _ = res.Extension(); _ = res.Parent(); _ = res.Is("text/plain") },
+		func() {
+			// accessors of a looked-up extension whose alias slice is the caller's (spare capacity)
+			if l := Lookup("application/x-verif-c06"); l != nil {
+				_ = l.Is("application/x-verif-other")
+				_ = l.String()
+				_ = l.Parent()
+			}
+		},
 	}
 	a := vChoice("opA", len(ops))
 	b := vChoice("opB", len(ops))
@@ -54,6 +65,64 @@ func HC06Pairs() {
 			go func() { defer wg.Done(); ops[b]() }()
 			wg.Wait()
 		}
+		// no registration may be lost: count the nodes the concurrent Extend calls added
+		want := 0
+		for _, o := range []int{a, b} {
+			if o == 6 || o == 7 {
+				want += 200
+			}
+		}
+		got := 0
+		for _, n := range root.flatten() {
+			if n.mime == "application/x-verif-c06b" || n.mime == "text/x-verif-c06c" {
+				got++
+			}
+		}
+		vAssert(got == want, "no-lost-registration")
 	}
+	vReach("end")
+}
+
+// c06FlipReader changes the read limit from inside its first Read: the limit flips while a
+// detection is in flight, at a point of the harness's choosing rather than the scheduler's.
+type c06FlipReader struct {
+	data  []byte
+	pos   int
+	to    uint32
+	done  bool
+}
+
+func (r *c06FlipReader) Read(p []byte) (int, error) {
+	if !r.done {
+		r.done = true
+		SetLimit(r.to)
+	}
+	if r.pos >= len(r.data) {
+		return 0, vioEOF()
+	}
+	n := copy(p, r.data[r.pos:])
+	r.pos += n
+	return n, nil
+}
+
+// HC06LimitFlip: a detection during which the limit changes returns what a sequential execution
+// would have returned for the old or for the new limit (one load of the limit per detection).
+func HC06LimitFlip() {
+	inputs := []string{"a,b\n1,2\n3,4\n5,6\n", "{\"a\":1}\n{\"b\":2}\n{\"c\":3}\n", "<html><body>x</body></html>", "a\tb\n1\t2\n3\t4\n5"}
+	in := []byte(inputs[vChoice("input", len(inputs))])
+	lims := []uint32{0, 5, 9, 13, 14, 3072}
+	l1 := lims[vChoice("from", len(lims))]
+	l2 := lims[vChoice("to", len(lims))]
+	old := readLimit
+	SetLimit(l1)
+	want1 := Detect(in).String()
+	SetLimit(l2)
+	want2 := Detect(in).String()
+	SetLimit(l1)
+	r, err := DetectReader(&c06FlipReader{data: in, to: l2})
+	vAssert(err == nil && r != nil, "flip-no-error")
+	got := r.String()
+	vAssert(got == want1 || got == want2, "result-is-sequential-for-old-or-new-limit")
+	SetLimit(old)
 	vReach("end")
 }
